@@ -7,6 +7,8 @@ import (
 	"context"
 
 	"github.com/ava-labs/avalanchego/trace"
+
+	"github.com/ava-labs/hypersdk/internal/verifhook"
 )
 
 type Accepter struct {
@@ -34,5 +36,6 @@ func (a *Accepter) AcceptBlock(ctx context.Context, blk *OutputBlock) error {
 	a.metrics.txsAccepted.Add(float64(len(blk.StatelessBlock.Txs)))
 	a.validityWindow.Accept(blk)
 
+	verifhook.YieldK("chain.Accepter.beforeCommit", blk.Hght)
 	return blk.View.CommitToDB(ctx)
 }
